@@ -120,6 +120,20 @@ contract(f"{RT}::RoutingTable.add", "RoutingTable.add.split-only-on-own-path",
 
 
 # ---------------------------------------------------------------------------------------------------------------------
+# Node.status (the stubs above abbreviate it): BAD exactly from the second failure on; otherwise GOOD iff it answered within 15 minutes,
+# or answered at some time and queried us within 15 minutes (BEP-5); else UNKNOWN
+contract(f"{RT}::Node.status", "Node.status==BEP-5",
+         vars={"NOW": REAL, "lq": REAL, "self": NODE(last_queries=EXPR("deque([lq][:n_q], maxlen=10)"))},
+         instances=[{"n_q": 0}, {"n_q": 1}], requires=["freeze_time(NOW)", "NOW > 0", "self.last_response >= 0", "lq >= 0"],
+         call="self.status", raises=[],
+         ensures=["(result == 0) == (self.failed >= 2)",
+                  "implies(self.failed < 2, (result == 2) == ((NOW - self.last_response) < 900"
+                  " or (self.last_response > 0 and (NOW - (lq if n_q else 0)) < 900)))",
+                  "result in (0, 1, 2)"],
+         covers=["result == 0", "result == 1", "result == 2"],
+         note="what closest_nodes filters on, remove_bad_nodes purges and a full bucket evicts: two failures make a node BAD")
+
+# ---------------------------------------------------------------------------------------------------------------------
 # RoutingTable.remove_bad_nodes: removes exactly the BAD nodes and never touches the STRUCTURE of the tree (the buckets keep
 # partitioning the identifier space: an emptied bucket stays where it is)
 
